@@ -105,6 +105,7 @@ void run_end() {
 }
 
 size_t outstanding_count() { return live.size(); }
+bool is_live(const void *p) { return live.count((void *)p) != 0; }
 uint64_t total_allocs() { return seq_ctr; }
 uint64_t failed_count() { return fail_ctr; }
 
